@@ -110,11 +110,11 @@ SUITES.update({
 })
 
 SUITES.update({
-    "SHAPES": dict(module="MC_Shapes", kind="bfs", spec="Spec", invariants=["C14_Counts", "C14_AtEnd", "MachineIsParseF", "Emit"],
+    "SHAPES": dict(module="MC_Shapes", kind="bfs", spec="Spec", invariants=["C14_Counts", "C14_AtEnd", "C14_Analysis", "LibraryOrderAdmitted", "MachineWithinAllowed", "SingleDefectDetermined", "Emit"],
                    trace="Trace_Shapes", trace_invariants=["C14_Counts_T"],
                    quick=dict(E=2), thorough=dict(E=3),
                    describe="user-supplied shapes: conversion ok/fails x hook ok/fails x every set of at most E hook edits (of 12) x 8 parse inputs and 3 builder inputs; "
-                            "expected outcome and call counts replayed, and the calls recorded by the shape validated as a trace of the step machine"),
+                            "the set of admitted outcomes and call counts replayed, and the calls recorded by the shape validated as a trace of the step machine (which fixes what C14 fixes, not the order in which the library examines the other components)"),
 })
 
 SUITES.update({
